@@ -599,3 +599,10 @@ Definition current_value (s : state) : option val :=
   match vals s with v :: _ => Some v | [] => None end.
 
 End Machine.
+
+Arguments pc {hstate} s.
+Arguments regs {hstate} s.
+Arguments vals {hstate} s.
+Arguments frames {hstate} s.
+Arguments hs {hstate} s.
+Arguments tr {hstate} s.
